@@ -305,6 +305,27 @@ pub fn run_case(c: &C04Case, n: u64) -> Verdict {
     let tree = cd.tree();
     let built = c.d.tree.build(&tree);
     let files = file_list(&built);
+    // with -S: a symlink inside the first root whose target lives outside every scanned root and holds a
+    // copy of the first regular file of that root; it sorts first in its group (name `0link`)
+    if c.d.gopts.symbolic_links {
+        let r0 = tree.join(ROOT_NAMES[0]);
+        let first = std::fs::read_dir(&r0).ok().and_then(|rd| {
+            let mut f: Vec<_> = rd.filter_map(|e| e.ok()).filter(|e| e.file_type().map(|t| t.is_file()).unwrap_or(false)).map(|e| e.path()).collect();
+            f.sort();
+            f.into_iter().find(|p| std::fs::metadata(p).map(|m| m.len() > 0).unwrap_or(false))
+        });
+        if let Some(src) = first {
+            let ext = cd.base.join("ext");
+            let _ = std::fs::create_dir_all(&ext);
+            if let Ok(bytes) = std::fs::read(&src) {
+                let e0 = ext.join("e0");
+                if std::fs::write(&e0, &bytes).is_ok() {
+                    set_times(&e0, BASE_TIME + 3, 0, BASE_TIME);
+                    let _ = std::os::unix::fs::symlink(&e0, r0.join("0link"));
+                }
+            }
+        }
+    }
     let target = target_dir(&cd, &c.d);
     if c.d.move_target >= 2 {
         let _ = std::fs::create_dir_all(&target);
@@ -373,6 +394,16 @@ fn judge(c: &C04Case, cd: &CaseDir, files: &[PathBuf], target: &PathBuf) -> Verd
         return Verdict::Discard("group-failed".into());
     }
     std::thread::sleep(Duration::from_millis(30));
+    let ext_link = tree.join(ROOT_NAMES[0]).join("0link");
+    if c.d.gopts.symbolic_links && c.pause_sel % 3 == 0 && ext_link.is_symlink() {
+        // an ordinary write through the link: the file outside the roots gets new bytes of the same
+        // length and a new mtime, the link itself is not touched
+        if let Ok(m) = std::fs::metadata(&ext_link) {
+            if m.is_file() && std::fs::write(&ext_link, class_bytes(77_000 + c.pause_sel as u32, (m.len() as usize).max(1))).is_ok() {
+                applied.push(format!("[after group] RewriteSameLen through the symlink {} (target outside the scanned roots)", ext_link.display()));
+            }
+        }
+    }
     for (i, e) in c.edits.iter().enumerate() {
         if !e.during_group || !paused {
             if let Some(s) = apply_edit(e, i, edit_files) {
@@ -383,13 +414,16 @@ fn judge(c: &C04Case, cd: &CaseDir, files: &[PathBuf], target: &PathBuf) -> Verd
     std::thread::sleep(Duration::from_millis(30));
     let report_bytes = gout.stdout.clone();
     let report = if c.d.text { parse_text(&report_bytes) } else { parse_json(&report_bytes) };
-    let s1 = Snapshot::take(&[&tree, target]);
+    // (the directory outside the roots that holds the target of `0link` is part of the inventory)
+    let ext_dir = cd.base.join("ext");
+    let _ = std::fs::create_dir_all(&ext_dir);
+    let s1 = Snapshot::take(&[&tree, target, &ext_dir]);
     let canon_roots: Vec<PathBuf> = root_paths(&tree, c.d.roots).iter().map(|p| std::fs::canonicalize(p).unwrap_or(p.clone())).collect();
     let (args, _) = dedupe_args(&c.d, files, &canon_roots, target, false);
     let run = Run::fclones(cd).args(&args).stdin(report_bytes).env("TZ", TZS[c.tz_dedupe as usize % 6]);
     let dcmd = format!("TZ={} {} < report", TZS[c.tz_dedupe as usize % 6], run.cmdline());
     let dout = run.run();
-    let s2 = Snapshot::take(&[&tree, target]);
+    let s2 = Snapshot::take(&[&tree, target, &ext_dir]);
     let sig = vec![format!("op-{}", c.d.op.name()), if paused { "edit-during-group".to_string() } else { "edit-after-group".to_string() }];
     let d = diff(&s1, &s2, false);
     let fail = |clause: &str, detail: String| {
@@ -454,7 +488,7 @@ pub fn check(tier: Tier) -> i32 {
     cleanup_process_scratch();
     ctx.finish(
         "exploration",
-        "proptest-generated histories: a scenario tree (5-12 files, several groups, hard links) ; `group --threads 1` paused by the LD_PRELOAD interposer at its k-th open-for-read of a tree file (k drawn from 1..K+1 where K comes from a recording run; covers 'before the first read of a file', 'between its prefix and content reads', 'after all hashing but before the report is written') ; 1-3 edits (rewrite same length, rewrite other length, append, truncate, delete, delete+recreate, replace by directory, replace by symlink, touch) applied by ordinary writes either during the pause or after `group` exited, aimed - in three quarters of the cases - at members of the groups a recording run reported, with the pause point biased towards the last third of the opens ; one of remove/link/link --soft/move/dedupe with priorities, -n, isolate ; group and dedupe run under independently drawn time zones (UTC, +9, -8, +5:30, -3:30, DST rule). Oracle (inventories just before and after the dedupe run): every content that existed just before the dedupe run is still stored in a regular file, and every processed file's current content is retained in an untouched file (or under the move target). Non-trivial = a same-length rewrite of a reported group member applied while `group` was paused.",
+        "proptest-generated histories: a scenario tree (5-12 files, several groups, hard links) ; `group --threads 1` paused by the LD_PRELOAD interposer at its k-th open-for-read of a tree file (k drawn from 1..K+1 where K comes from a recording run; covers 'before the first read of a file', 'between its prefix and content reads', 'after all hashing but before the report is written') ; 1-3 edits (rewrite same length - also through a symlink that is itself a reported member (-S), incl. one whose target lies outside every scanned root -, rewrite other length, append, truncate, delete, delete+recreate, replace by directory, replace by symlink, touch) applied by ordinary writes either during the pause or after `group` exited, aimed - in three quarters of the cases - at members of the groups a recording run reported, with the pause point biased towards the last third of the opens ; one of remove/link/link --soft/move/dedupe with priorities, -n, isolate ; group and dedupe run under independently drawn time zones (UTC, +9, -8, +5:30, -3:30, DST rule). Oracle (inventories just before and after the dedupe run): every content that existed just before the dedupe run is still stored in a regular file, and every processed file's current content is retained in an untouched file (or under the move target). Non-trivial = a same-length rewrite of a reported group member applied while `group` was paused.",
         &["edits are kept >= 30 ms away from the instants fclones reads the clock (kernel mtimes are tick-granular)", "mtime-preserving replacement is outside the guarantee and not generated", "the pause granularity is a libc call, not an instruction"],
     )
 }
